@@ -3,7 +3,7 @@ import json, os
 import vlib
 
 PROPS = ["C15"]
-EVERY = {"quick": 60, "thorough": 40}
+EVERY = {"quick": 250, "thorough": 150}
 NSIM = {"quick": 300, "thorough": 6000}
 
 
@@ -22,7 +22,8 @@ def run(prop, tier, seed, scratch, replay=None):
         res.write_evidence = False
         return res.finish()
     cfg = "MC_ChainSync_%s.cfg" % tier
-    bfs = vlib.run_tlc(scratch, "ChainSync.tla", cfg, out_traces=traces, tag="bfs",
+    every = EVERY[tier]
+    bfs = vlib.run_tlc(scratch, "ChainSync.tla", cfg, out_traces=traces, tag="bfs", emit_every=every, emit_offset=seed,
                        timeout=3000 if tier == "thorough" else 600)
     vlib.require_tlc_ok(bfs, "exhaustive exploration")
     cov = None
@@ -34,9 +35,8 @@ def run(prop, tier, seed, scratch, replay=None):
                        out_traces=simtr, tag="sim", timeout=1800)
     if sim["errors"]:
         raise vlib.Broken("simulation failed: %s" % sim["errors"][:3])
-    every = EVERY[tier]
     vlib.run_driver(drv, ["-in", traces, "-out", report, "-spec", "chainsync", "-prop", prop, "-seed", seed,
-                          "-every", every, "-offset", seed % every, "-workers", vlib.NCPU], timeout=7200)
+                          "-workers", vlib.NCPU], timeout=7200)
     rep = vlib.load_report(report)
     report2 = scratch.path("report2.json")
     vlib.run_driver(drv, ["-in", simtr, "-out", report2, "-spec", "chainsync", "-prop", prop, "-seed", seed,
@@ -51,7 +51,7 @@ def run(prop, tier, seed, scratch, replay=None):
         "distinct_nontrivial": rep["distinct_nontrivial"] + rep2["distinct_nontrivial"],
         "rule": rep["rule"], "samples": (rep["samples"] or [])[:2] + (rep2["samples"] or [])[:1],
         "exhaustive": every == 1,
-        "explanation": "TLC explored spec/ChainSync.tla exhaustively under %s (depth %d) checking WalletFollows at every (quiescent) state; every %d-th "
+        "explanation": "TLC explored spec/ChainSync.tla exhaustively under %s (depth %d) checking WalletFollows at every (quiescent) state; one in %d "
                        "transition of that state graph, with the shortest history reaching it, and %d random walks of 25 steps were replayed on a real "
                        "wallet.Wallet attached to the scripted backend: chain extensions, reorgs (disconnects top-down, FilteredBlockConnected before "
                        "BlockConnected), duplicate and stale disconnects, stop / off-line evolution / start (birthday check, rollback loop, rescan); "
